@@ -94,3 +94,19 @@ uint32_t m__ZNKSt7__cxx1112basic_stringIcSt11char_traitsIcESaIcEE7compareEmmPKc(
     if (MS_P(s)[pos + i] != p[i]) return MS_P(s)[pos + i] < p[i] ? (uint32_t)-1 : 1;
   }
 }
+
+/* iterator begin()/end() (a __normal_iterator is one pointer) */
+void *m__ZNKSt7__cxx1112basic_stringIcSt11char_traitsIcESaIcEE5beginEv(void *s_) { mstr *s = (mstr *)s_; return MS_P(s); }
+void *m__ZNKSt7__cxx1112basic_stringIcSt11char_traitsIcESaIcEE3endEv(void *s_) { mstr *s = (mstr *)s_; return MS_P(s) + MS_N(s); }
+void *m__ZNSt7__cxx1112basic_stringIcSt11char_traitsIcESaIcEE5beginEv(void *s_) { mstr *s = (mstr *)s_; return MS_P(s); }
+void *m__ZNSt7__cxx1112basic_stringIcSt11char_traitsIcESaIcEE3endEv(void *s_) { mstr *s = (mstr *)s_; return MS_P(s) + MS_N(s); }
+/* erase(size_t pos, size_t n) */
+void *m__ZNSt7__cxx1112basic_stringIcSt11char_traitsIcESaIcEE5eraseEmm(void *s_, uint64_t pos, uint64_t n) { mstr *s = (mstr *)s_;
+  __CPROVER_assert(pos <= MS_N(s), "std::string::erase(pos,n): pos <= size (else out_of_range)");
+  uint64_t r = MS_N(s) - pos; if (n > r) n = r;
+  for (uint64_t i = pos; i + n <= MS_N(s); i++) MS_P(s)[i] = MS_P(s)[i + n];
+  MS_N(s) -= n; return s; }
+/* allocator-extended / pointer constructors used by `return buf;` and `return "UTC";` */
+void m__ZNSt7__cxx1112basic_stringIcSt11char_traitsIcESaIcEEC2IS3_EEPKcRKS3_(void *s_, void *p_, void *a) { mstr *s = (mstr *)s_; uint8_t *p = (uint8_t *)p_;
+  uint64_t n = 0; while (p[n] != 0) n++;
+  ms_init(s); ms_set(s, p, n); }
